@@ -39,6 +39,50 @@ func checkC16(c *an.Ctx) {
 		c.Und("C16.1", "config.(*Loader).unmarshalData", token.NoPos, "unmarshalData not found")
 		return
 	}
+	// the dispatch itself may live in a function unmarshalData only forwards to: descend through pure
+	// forwarders (one call of a function of the package that is handed the same data and extension)
+	var forwarders []*ssa.Function
+	for hops := 0; hops < 3; hops++ {
+		var next *ssa.Function
+		nCalls := 0
+		an.EachInstr(um, func(in ssa.Instruction) {
+			call, ok := in.(*ssa.Call)
+			if !ok {
+				return
+			}
+			if _, isB := call.Call.Value.(*ssa.Builtin); isB {
+				return
+			}
+			nCalls++
+			g := call.Call.StaticCallee()
+			if g == nil || g.Blocks == nil || an.Outer(g).Pkg != um.Pkg {
+				return
+			}
+			passed := 0
+			for _, a := range call.Call.Args {
+				if prm, ok := a.(*ssa.Parameter); ok && prm.Parent() == um {
+					if _, isSl := prm.Type().Underlying().(*types.Slice); isSl {
+						passed++
+					}
+					if b, ok := prm.Type().Underlying().(*types.Basic); ok && b.Kind() == types.String {
+						passed++
+					}
+				}
+			}
+			if passed == 2 {
+				next = g
+			}
+		})
+		if next == nil || nCalls != 1 {
+			break
+		}
+		forwarders = append(forwarders, um)
+		um = next
+	}
+	isForwarder := map[*ssa.Function]bool{}
+	for _, f := range forwarders {
+		isForwarder[f] = true
+	}
 	var dataParam, extParam *ssa.Parameter
 	for _, prm := range um.Params {
 		if _, ok := prm.Type().Underlying().(*types.Slice); ok {
@@ -239,7 +283,7 @@ func checkC16(c *an.Ctx) {
 				input := "?"
 				for _, src := range an.Sources(call.Call.Args[0]) {
 					if nd, ok := src.(*ssa.Call); ok {
-						input = an.ShortCallee(&nd.Call) + "(" + an.FieldProv(nd.Call.Args[0]) + ")"
+						input = an.ShortCallee(&nd.Call) + "(" + an.FieldProv(st.Root(nd.Call.Args[0])) + ")"
 					}
 				}
 				return fmt.Sprintf("%s[%s→%s]", name, input, into)
@@ -323,9 +367,35 @@ func checkC16(c *an.Ctx) {
 	c.Check(!touched, "C16.1", an.Short(um)+":returns-decoded-map", um.Pos(), "the decoded map is returned as decoded", "unmarshalData edits the decoded map")
 	// the functions that choose the extension: the callers of unmarshalData and the helpers only they use
 	deciders := map[*ssa.Function]bool{um: true}
-	for _, site := range p.CallSitesOf(um) {
-		deciders[site.Parent()] = true
+	extIdx := paramIndexOf(um, extParam)
+	// the sites that choose an extension: the calls of the dispatch function, and for a forwarder its own callers
+	type extSite struct {
+		site ssa.CallInstruction
+		ext  ssa.Value
 	}
+	var extSites []extSite
+	var collectSites func(fn *ssa.Function, idx int, depth int)
+	collectSites = func(fn *ssa.Function, idx int, depth int) {
+		for _, site := range p.CallSitesOf(fn) {
+			args := site.Common().Args
+			ai := idx
+			if site.Common().IsInvoke() {
+				ai = idx - 1
+			}
+			if ai < 0 || ai >= len(args) {
+				continue
+			}
+			deciders[site.Parent()] = true
+			if isForwarder[site.Parent()] && depth > 0 {
+				if pi := paramIndexOf(site.Parent(), args[ai]); pi >= 0 {
+					collectSites(site.Parent(), pi, depth-1)
+					continue
+				}
+			}
+			extSites = append(extSites, extSite{site, args[ai]})
+		}
+	}
+	collectSites(um, extIdx, 3)
 	for changed := true; changed; {
 		changed = false
 		for _, fn := range p.Funcs {
@@ -352,14 +422,19 @@ func checkC16(c *an.Ctx) {
 		}
 	}
 	var urlFn *ssa.Function
-	for f := range deciders {
-		if len(an.CallsIn(f, "net/http.Get")) > 0 {
-			urlFn = f
+	for _, es := range extSites {
+		f := es.site.Parent()
+		for g := range p.Reach([]*ssa.Function{f}, func(e an.CallEdge) bool {
+			return e.Kind == an.EdgeCall && an.Outer(e.Callee).Pkg == um.Pkg && e.Callee != um && !isForwarder[e.Callee]
+		}) {
+			if g.Blocks != nil && len(an.CallsIn(g, "net/http.Get")) > 0 {
+				urlFn = f
+			}
 		}
 	}
 	rf, ru := (*ssa.Function)(nil), urlFn
-	for _, site := range p.CallSitesOf(um) {
-		f := site.Parent()
+	for _, es := range extSites {
+		f := es.site.Parent()
 		if f != urlFn {
 			rf = f
 		}
@@ -368,12 +443,13 @@ func checkC16(c *an.Ctx) {
 		if f == nil {
 			continue
 		}
-		for _, site := range p.CallSitesOf(um) {
+		for _, es := range extSites {
+			site := es.site
 			if site.Parent() != f {
 				continue
 			}
 			var exts []string
-			for _, src := range p.DeepSources(site.Common().Args[2], 3, false) {
+			for _, src := range p.DeepSources(es.ext, 3, false) {
 				if s, ok := an.ConstString(src); ok {
 					exts = append(exts, fmt.Sprintf("%q", s))
 					continue
